@@ -310,6 +310,12 @@ class Project(MessageHandler):
         return 60 * 60
 
     def schedule(self) -> bool:
+        if getattr(self, "_schedule_done", False):
+            # Scheduled already: the dates, bookings and costs of that run stand. (Running again would
+            # rebuild the scoreboards but keep the booking records, and book unfinished work twice.)
+            return True
+        self._schedule_done = True
+
         # Extend project end if tasks require more time
         self._extendProjectEndIfNeeded()
 
